@@ -8,11 +8,11 @@ open Physis Physis.Fs Physis.Spec.ZiPatch
 /-! ### names -/
 
 theorem nibble_shift1 (s : UInt16) : Patch.nibble ((s >>> 8) >>> 4) = Patch.nibble (s >>> 12) := by
-  simp only [Patch.nibble]; bv_decide
+  simp only [Patch.nibble]; bv_decide (timeout := 300)
 theorem nibble_shift2 (s : UInt16) : Patch.nibble ((s &&& 0xff) >>> 4) = Patch.nibble (s >>> 4) := by
-  simp only [Patch.nibble]; bv_decide
+  simp only [Patch.nibble]; bv_decide (timeout := 300)
 theorem nibble_mask (s : UInt16) : Patch.nibble (s &&& 0xff) = Patch.nibble s := by
-  simp only [Patch.nibble]; bv_decide
+  simp only [Patch.nibble]; bv_decide (timeout := 300)
 
 theorem fmt02x_eq (m : UInt16) : fmt02x m = hexMin2 m := rfl
 
